@@ -48,7 +48,9 @@ class Prop:
                 f = self.last_valid
                 cc = rng.choice([b'00', b'7F', b'6d', b'1', b''])
             self.last_valid = f
-            return gen.gatehouse(*f[:7], country=f[7], region=f[8], pss=f[9], online=b'%d' % f[10], cc=cc), f
+            # (the sentence type is recognised whatever its letter case)
+            tag = rng.choice([b'PGHP'] * 6 + [b'pghp', b'PGhp', b'pGHP'])
+            return gen.gatehouse(*f[:7], country=f[7], region=f[8], pss=f[9], online=b'%d' % f[10], cc=cc, tag=tag), f
         if second is not None and rng.random() < 0.4:
             # invalid milliseconds in a second that valid wrappers of the same sequence use as well
             y, mo, d, h, mi, sec = second
